@@ -13,7 +13,7 @@ fi
 git apply mut$X.diff
 /venv/bin/python demo$X.py > $OUT/demo_mutated.out 2>&1; echo "demo on mutated tree: exit $?" >> $LOG
 /venv/bin/python -c "import aiocoap" 2>>$LOG && echo "imports ok" >> $LOG
-flock /tmp/wt/pytest.lock /venv/bin/python -m pytest -q -p no:cacheprovider --timeout=900 --continue-on-collection-errors -x --deselect tests/test_server.py::TestServer::test_big_resource --deselect tests/test_client.py::TestClientWithHostlessMessages::test_uri_parser --deselect tests/test_client.py::TestClientWithSetHost::test_uri_parser --deselect tests/test_reverseproxy.py --deselect tests/test_tls.py 2>&1 | tail -3 >> $LOG
+unshare -n sh -c 'ip link set lo up; exec "$@"' sh /venv/bin/python -m pytest -q -p no:cacheprovider --timeout=900 --continue-on-collection-errors -x --deselect tests/test_server.py::TestServer::test_big_resource --deselect tests/test_client.py::TestClientWithHostlessMessages::test_uri_parser --deselect tests/test_client.py::TestClientWithSetHost::test_uri_parser --deselect tests/test_reverseproxy.py --deselect tests/test_tls.py 2>&1 | tail -3 >> $LOG
 git checkout -q -- .
 cp mut$X.diff $OUT/patch.diff; cp demo$X.py $OUT/demo.py
 echo "confirmed-run-finished" >> $LOG
